@@ -16,6 +16,26 @@
 #include "common/trace.hpp"
 using namespace vf;
 
+// process-wide state a library call may touch behind the caller's back: signal dispositions, umask, rounding mode, locale, working directory.
+// Running alone, every script leaves it as it was; if it differs after the concurrent phase, some thread would observe a process it did
+// not set up (its own SIGXFSZ handler gone, another rounding mode ...)
+#include <cfenv>
+#include <clocale>
+#include <csignal>
+static void noteSig(int) {}
+static std::string processState() {
+    std::string st;
+    for (int sig = 1; sig < 32; ++sig) {
+        struct sigaction sa; if (sigaction(sig, nullptr, &sa) != 0) continue;
+        char b[64]; snprintf(b, sizeof b, "sig%d=%p/%x ", sig, reinterpret_cast<void *>(sa.sa_handler), static_cast<unsigned>(sa.sa_flags)); st += b;
+    }
+    mode_t m = umask(0); umask(m);
+    char cwd[512]; if (!getcwd(cwd, sizeof cwd)) cwd[0] = 0;
+    const char *loc = setlocale(LC_ALL, nullptr);
+    st += "umask=" + std::to_string(m) + " round=" + std::to_string(fegetround()) + " locale=" + (loc ? loc : "?") + " cwd=" + cwd;
+    return st;
+}
+
 static std::string jsonStr(const std::string &s) {
     std::string o = "\"";
     for (unsigned char c : s) { if (c == '"') o += "\\\""; else if (c == '\\') o += "\\\\"; else if (c == '\n') o += "\\n"; else if (c < 0x20 || c >= 0x7F) { char b[8]; snprintf(b, sizeof b, "\\u%04x", c); o += b; } else o.push_back(static_cast<char>(c)); }
@@ -103,14 +123,18 @@ int main(int argc, char **argv) {
                 });
             }
             while (ready.load() < static_cast<int>(per.size())) std::this_thread::yield();
+            signal(SIGXFSZ, noteSig); signal(SIGPIPE, noteSig);      // the application's own handlers
+            const std::string stateBefore = processState();
             go.store(true);
             for (auto &x : th) x.join();
+            const std::string stateAfter = processState();
             bool ov = false;
             for (size_t a = 0; a < per.size() && !ov; ++a) for (size_t b = a + 1; b < per.size() && !ov; ++b)
                 for (auto &sa : spans[a]) for (auto &sb : spans[b]) if (sa.b < sb.e && sb.b < sa.e) ov = true;
             std::string msg;
             for (size_t t = 0; t < per.size(); ++t)
                 if (alone[t] != together[t]) { msg = "thread " + std::to_string(t) + " of " + std::to_string(per.size()) + " observed results that differ from running its script alone (in a process of its own): " + firstDiff(alone[t], together[t]); break; }
+            if (msg.empty() && stateBefore != stateAfter) msg = "process-wide state (signal dispositions / umask / rounding mode / locale / working directory) differs after the threads ran: " + firstDiff(stateBefore, stateAfter);
             writeFileText(resPath, std::string(ov ? "1" : "0") + "\n" + msg + "\n");
             fflush(stdout); fflush(stderr);
             _exit(msg.empty() ? 0 : 1);
